@@ -204,6 +204,14 @@ def enumerate_ops(src: str, *, nk=3, nks=2, forms=('src', 'ast', 'fst'), opts=({
     for path, node in O.iter_nodes(tree):
         p = [list(x) for x in path]
         ncls = node.__class__.__name__
+        if ncls in ('Global', 'Nonlocal'):  # lists of identifiers (no nodes): slices in source form only
+            n = len(node.names)
+            for i in range(n + 1):
+                for j in range(i, n + 1):
+                    if want('put_slice') and not (i == 0 and j == n):
+                        yield {'op': 'put_slice', 'path': p, 'field': 'names', 'start': i, 'stop': j, 'code': ['nm1, nm2', None, 'src'], 'opts': {}}
+                    if j > i and not (i == 0 and j == n) and want('del_slice'):
+                        yield {'op': 'put_slice', 'path': p, 'field': 'names', 'start': i, 'stop': j, 'code': [None, None, 'src'], 'opts': {}}
         for field, typ, card in O.GRAMMAR.get(ncls, ()):
             if card == '*' and typ in EDIT_TYPES:
                 n = len(getattr(node, field))
